@@ -2,7 +2,8 @@
   Finv (C04), part 27: `clone_node` of an element, given that the temporary top is still a
   parentless node with at most one child after the replay (`Forest.cloneTopOK`).
 -/
-import XotModel.Lemmas.FinvReach2
+import XotModel.Lemmas.FinvUnwrap2
+import XotModel.Lemmas.FinvWs
 
 namespace XotModel
 open HTree
